@@ -48,7 +48,10 @@ real encoder succeeds and the tree is what it writes (byte equality is checked b
 finding), numbers beyond the range of their primitive, enumeration values that are no member, attribute names that
 are no member value of `enums.AttributeType` (custom "x-…" names included: not modelled), values of a kind other
 than the attribute's class, mandatory fields absent (`write` raises), `Payload.unsupported` (no payload class),
-SetAttribute below KMIP 2.0, Register of a Template, MAC without data, key material that is not lower-case hex.
+SetAttribute below KMIP 2.0, Register of a Template, MAC without data, key material that is not lower-case hex; and
+two cases the real encoder writes but no reader reads back: a Register whose object is of another type than the
+announced one (the reader picks the class by the announced type), a KMIP 2.0 attribute whose reader-side factory (by
+tag) has no / another value class than the writer-side one (by name).
 
 `norm` is what M14 gives back: the scripted backend outcome is not on the wire (`crypto := .internal`), and the
 fields the version's form does not carry are dropped (see `normPayload`).  No Mathlib.
@@ -154,9 +157,9 @@ def encAttr1x (a : TAttr) : TItem :=
 
 def okAttr1x (a : TAttr) : Bool :=
   okText a.name && okOpt okInt a.index &&
-  (match specOf a.name, specOfName a.name with
-   | some sp, .ok sp' => sp == sp' && okValue a.name sp a.value
-   | _, _ => false)
+  (match specOf a.name with
+   | some sp => okValue a.name sp a.value
+   | none => false)
 
 /-- `enums.convert_attribute_name_to_tag` -/
 def tagOfName (name : String) : Option Nat := attributeNameTags.lookup name
@@ -167,12 +170,11 @@ def encAttr20 (a : TAttr) : TItem :=
   encValue ((tagOfName a.name).getD 0) a.name ((specOf a.name).getD .notImplemented) a.value
 
 /-- the name has a tag, the tag is an attribute of KMIP 2.0 (`Attributes.write` / `NewAttribute.write` check
-`is_attribute`), both factories give the attribute the same value class, and the tag names the attribute back -/
+`is_attribute`), and the reader's factory (by tag) gives the attribute the value class of the writer's (by name) -/
 def okAttr20 (a : TAttr) : Bool :=
   match tagOfName a.name, specOf a.name with
   | some t, some sp =>
-    allTags.contains t && ((attributeTags.lookup 20).getD []).contains t && valueByTag.lookup t == some sp &&
-    nameOfTag t == some a.name && okValue a.name sp a.value
+    ((attributeTags.lookup 20).getD []).contains t && valueByTag.lookup t == some sp && okValue a.name sp a.value
   | _, _ => false
 
 /-- the `i`-th template name `impl_engine.build_template` makes up -/
@@ -355,9 +357,7 @@ def okPayload (v : Nat) : Payload → Bool
   | .get u f _ w => okOpt okText u && okOpt E.keyFormatType.contains f && okOpt okWrap w
   | .getAttributes u ns =>
       okOpt okText u && ns.eraseDups.all okText &&
-      (v < 20 || ns.eraseDups.all (fun n => match tagOfName n with
-        | some t => allTags.contains t && nameOfTag t == some n
-        | none => false))
+      (v < 20 || ns.eraseDups.all (fun n => (tagOfName n).isSome))
   | .getAttributeList u => okOpt okText u
   | .activate u => okOpt okText u
   | .revoke u c => okOpt okText u && (match c with | some c => E.revocationReasonCode.contains c | none => false)
